@@ -215,7 +215,21 @@ func (c *C19Case) Run() string {
 					}
 					flat = append(flat, a, b)
 				}
-				v, err := m.T.Slice(sl...)
+				// the list handed in is a prefix of a longer array the caller owns (trailing whole axes may be left
+				// out): nothing of that array, within or beyond the length passed, may change
+				full := append(append([]tensor.Slice{}, sl...), hiddenTail, hiddenTail)
+				n := len(sl)
+				for st.K%2 == 0 && n > 1 && specs[n-1].A == 0 && specs[n-1].B == m.Shape[n-1] {
+					n--
+				}
+				before := append([]tensor.Slice{}, full...)
+				v, err := m.T.Slice(full[:n]...)
+				for i := range full {
+					if full[i] != before[i] {
+						stepErr = fmt.Sprintf("Slice of %s (shape %v) with %d of the caller's %d slice entries overwrote entry %d (%v -> %v)", m.name, m.Shape, n, len(full), i, before[i], full[i])
+						return
+					}
+				}
 				if err != nil {
 					stepErr = fmt.Sprintf("Slice%v of %s (shape %v) refused: %v", specs, m.name, m.Shape, err)
 					return
